@@ -126,7 +126,7 @@ def check_bed(spec, ctx):
 def strat_bed(draw, tier="quick"):
     kind = draw(st.sampled_from(["tx", "tx", "feat"]))
     if kind == "tx":
-        obj = draw(S.transcript_spec(max_exons=5, max_len=9, frameshift_prob=30, start_max=12, adjacent_exons=draw(st.booleans())))
+        obj = draw(S.transcript_spec(max_exons=5, max_len=9, frameshift_prob=30, start_max=12, cds_overlap_prob=8, adjacent_exons=draw(st.booleans())))
         blocks = obj["exons"]
         names = ["transcript_symbol", "transcript_id", "guid", "my name", "protein_id"]
     else:
